@@ -992,6 +992,18 @@ func (ex *Exec) chanRecv(ch *ChanV, t types.Type, commaOk bool) (Value, bool) {
 	if ch.closed {
 		return zeroValue(t), false
 	}
+	if ex.cur != nil {
+		// inside an interpreted goroutine: park until there is something to receive
+		for len(ch.q) == 0 && !ch.closed {
+			ex.park()
+		}
+		if len(ch.q) > 0 {
+			v := ch.q[0]
+			ch.q = ch.q[1:]
+			return v, true
+		}
+		return zeroValue(t), false
+	}
 	// try running queued goroutines that might send
 	if ex.runPendingGoroutines() && len(ch.q) > 0 {
 		v := ch.q[0]
@@ -1042,6 +1054,10 @@ func (ex *Exec) selectStmt(fr *frame, x *ssa.Select) Value {
 	if !x.Blocking {
 		return res
 	}
+	if ex.cur != nil {
+		ex.park()
+		return ex.selectStmt(fr, x)
+	}
 	panic(pathEnd{kind: endBlocked, msg: "select would block in " + ex.site()})
 }
 
@@ -1058,32 +1074,117 @@ func (ex *Exec) goStmt(fn Value, args []Value) {
 	ex.dropped++
 }
 
-// runPendingGoroutines runs queued goroutines to completion (sequentially).
-func (ex *Exec) runPendingGoroutines() bool {
-	ran := false
-	for len(ex.env.goQueue) > 0 {
-		t := ex.env.goQueue[0]
-		ex.env.goQueue = ex.env.goQueue[1:]
-		saved := ex.stack
-		sd := ex.depth
-		func() {
-			defer func() {
-				if r := recover(); r != nil {
-					if pe, ok := r.(pathEnd); ok && pe.kind == endBlocked {
-						// goroutine blocked: drop it
-						ex.dropped++
-						ex.stack = saved
-						ex.depth = sd
-						return
-					}
-					panic(r)
+// ---- cooperative goroutines (coroutines): each interpreted `go` statement runs in its own host
+// goroutine, but only one of them (or the harness) executes at a time (baton passing). A goroutine
+// that would block on a channel parks and is resumed by a later runPendingGoroutines.
+
+type coroMsg struct {
+	kind string // "blocked" | "done" | "panic"
+	p    interface{}
+}
+
+type coro struct {
+	resume  chan bool
+	yield   chan coroMsg
+	started bool
+	done    bool
+	stack   []*frame
+	depth   int
+	defers  []*frame
+	task    goTask
+}
+
+// park is called by a goroutine that cannot proceed; returns when it is resumed.
+func (ex *Exec) park() {
+	c := ex.cur
+	c.stack, c.depth, c.defers = ex.stack, ex.depth, ex.deferFrame
+	c.yield <- coroMsg{kind: "blocked"}
+	if ok := <-c.resume; !ok {
+		panic(pathEnd{kind: endStop, msg: "goroutine aborted at path end"})
+	}
+	ex.stack, ex.depth, ex.deferFrame = c.stack, c.depth, c.defers
+}
+
+func (ex *Exec) startCoro(c *coro) {
+	go func() {
+		defer func() {
+			r := recover()
+			c.done = true
+			if r != nil {
+				if pe, ok := r.(pathEnd); ok && pe.kind == endStop {
+					c.yield <- coroMsg{kind: "done"}
+					return
 				}
-			}()
-			ex.call(t.fn, t.args, nil)
+				c.yield <- coroMsg{kind: "panic", p: r}
+				return
+			}
+			c.yield <- coroMsg{kind: "done"}
 		}()
-		ran = true
+		if ok := <-c.resume; !ok {
+			panic(pathEnd{kind: endStop})
+		}
+		ex.stack, ex.depth, ex.deferFrame = nil, 0, nil
+		ex.call(c.task.fn, c.task.args, nil)
+	}()
+}
+
+// runPendingGoroutines starts queued goroutines and resumes parked ones until none makes progress.
+func (ex *Exec) runPendingGoroutines() bool {
+	if ex.cur != nil {
+		return false // only the harness goroutine schedules
+	}
+	for _, t := range ex.env.goQueue {
+		c := &coro{resume: make(chan bool), yield: make(chan coroMsg), task: t}
+		ex.startCoro(c)
+		ex.env.coros = append(ex.env.coros, c)
+	}
+	ex.env.goQueue = nil
+	ran := false
+	mainStack, mainDepth, mainDefers := ex.stack, ex.depth, ex.deferFrame
+	defer func() { ex.stack, ex.depth, ex.deferFrame, ex.cur = mainStack, mainDepth, mainDefers, nil }()
+	for round := 0; round < 64; round++ {
+		progress := false
+		for _, c := range ex.env.coros {
+			if c.done {
+				continue
+			}
+			before := ex.steps
+			ex.cur = c
+			c.resume <- true
+			msg := <-c.yield
+			ex.cur = nil
+			if msg.kind == "panic" {
+				panic(msg.p)
+			}
+			if ex.steps-before > 40 || msg.kind == "done" {
+				progress = true
+				ran = true
+			}
+			// newly spawned goroutines
+			for _, t := range ex.env.goQueue {
+				nc := &coro{resume: make(chan bool), yield: make(chan coroMsg), task: t}
+				ex.startCoro(nc)
+				ex.env.coros = append(ex.env.coros, nc)
+				progress = true
+			}
+			ex.env.goQueue = nil
+		}
+		if !progress {
+			break
+		}
 	}
 	return ran
+}
+
+// abortCoros terminates every parked goroutine at the end of a path.
+func (ex *Exec) abortCoros() {
+	for _, c := range ex.env.coros {
+		if !c.done {
+			c.resume <- false
+			<-c.yield
+		}
+	}
+	ex.env.coros = nil
 }
 
 // decodeRuneSym decodes one UTF-8 sequence at pos of a (partly) symbolic string of
